@@ -448,6 +448,73 @@ func run(c *mon.Ctx) {
 		}
 		c.Class(fmt.Sprintf("after-setters/%02x>%02x", a.Type, b.Type))
 	})
+	// the relation is a function of the field values, whatever the two objects have been through: descriptors that a
+	// tracker (scte35.State) has opened, closed on its own account, closed on request or seen again answer like
+	// descriptors with the same values that never met one
+	c.Floor("tracker.closed_by_incoming", 100)
+	c.Floor("tracker.closed_on_request", 300)
+	c.Stream("after-a-tracker", c.N(3000, 3000000), func(i int, r *gen.Rand) {
+		a := attrs{Type: r.PickByte([]byte{0x35, 0x37, 0x31, 0x34, 0x36, 0x11, 0x41, 0x21, 0x45, 0x51, 0x10, 0x30}), Event: uint32(1 + r.Intn(2)), PTS: uint64(1000 + 1000*r.Intn(2)), HasPTS: true, SegNum: byte(1 + r.Intn(2)), SegExp: byte(1 + r.Intn(2)), Noise: r.Uint32() | 1, Carrier: 0}
+		b := attrs{Type: r.PickByte([]byte{0x34, 0x36, 0x30, 0x10, 0x40, 0x3c, 0x44, 0x20, 0x50, 0x17}), Event: uint32(1 + r.Intn(2)), PTS: uint64(1000 + 1000*r.Intn(2)), HasPTS: true, SegNum: 1, SegExp: 1, Noise: r.Uint32() | 1, Carrier: 0}
+		da, db, twinA, twinB := mk(a), mk(b), mk(a), mk(b)
+		check := func(when string) bool {
+			c.Eval(6)
+			want := ref.CanClose(a.Type, b.Type, a.Event == b.Event, a.PTS == b.PTS, a.SegNum == a.SegExp)
+			back := ref.CanClose(b.Type, a.Type, a.Event == b.Event, a.PTS == b.PTS, b.SegNum == b.SegExp)
+			switch {
+			case da.CanClose(db) != want || twinA.CanClose(db) != want || da.CanClose(twinB) != want:
+				c.Fail("canclose:after-a-tracker", fmt.Sprintf("%s: a.CanClose(b)=%v, twin-of-a.CanClose(b)=%v, a.CanClose(twin-of-b)=%v; the documented table says %v (the twins have the same field values and never met a tracker)", when, da.CanClose(db), twinA.CanClose(db), da.CanClose(twinB), want), wit{A: a, B: b, Detail: when})
+			case db.CanClose(da) != back || twinB.CanClose(da) != back || db.CanClose(twinA) != back:
+				c.Fail("canclose:after-a-tracker", fmt.Sprintf("%s: b.CanClose(a)=%v, twin-of-b.CanClose(a)=%v, b.CanClose(twin-of-a)=%v; the documented table says %v", when, db.CanClose(da), twinB.CanClose(da), db.CanClose(twinA), back), wit{A: b, B: a, Detail: when})
+			case !db.Equal(twinB) || !twinB.Equal(db) || !da.Equal(twinA) || !twinA.Equal(da) || !db.Equal(db) || !da.Equal(da):
+				c.Fail("equal:after-a-tracker", fmt.Sprintf("%s: a descriptor is no longer equal to itself or to a descriptor with the same field values", when), wit{A: a, B: b, Detail: when})
+			default:
+				return true
+			}
+			return false
+		}
+		if !check("freshly built") {
+			return
+		}
+		st := scte35.NewState()
+		st.ProcessDescriptor(db)
+		if !check("after b was given to a tracker") {
+			return
+		}
+		how := ""
+		switch r.Intn(3) {
+		case 0:
+			closed, _ := st.ProcessDescriptor(da)
+			how = "after a was given to the same tracker"
+			for _, x := range closed {
+				if x == db {
+					how += " (which reported b closed)"
+					c.Count("tracker.closed_by_incoming")
+				}
+			}
+		case 1:
+			if closed, err := st.Close(db); err == nil && len(closed) > 0 {
+				c.Count("tracker.closed_on_request")
+			}
+			how = "after the tracker was asked to close b"
+		default:
+			st.ProcessDescriptor(da)
+			st.Close(db)
+			st.Close(da)
+			how = "after a was given to the tracker and both were closed on request"
+		}
+		if !check(how) {
+			return
+		}
+		if r.Bool() {
+			st.ProcessDescriptor(db)
+			st.ProcessDescriptor(da)
+			if !check(how + ", and both were given to it again") {
+				return
+			}
+		}
+		c.Class(fmt.Sprintf("after-a-tracker/%02x>%02x", a.Type, b.Type))
+	})
 	// nil argument: never equal
 	a := mk(attrs{Type: 0x30, Event: 1, PTS: 5, HasPTS: true})
 	if a.Equal(nil) {
